@@ -32,6 +32,16 @@ class Lib:
         'Ordering': ('Less', 'Equal', 'Greater'),
         'Poll': ('Ready', 'Pending'),
         'RecursiveMode': ('Recursive', 'NonRecursive'),
+        # notify::event
+        'EventKind': ('Any', 'Access', 'Create', 'Modify', 'Remove', 'Other'),
+        'ModifyKind': ('Any', 'Data', 'Metadata', 'Name', 'Other'),
+        'RenameMode': ('Any', 'To', 'From', 'Both', 'Other'),
+        'CreateKind': ('Any', 'File', 'Folder', 'Other'),
+        'RemoveKind': ('Any', 'File', 'Folder', 'Other'),
+        'DataChange': ('Any', 'Size', 'Content', 'Other'),
+        'MetadataKind': ('Any', 'AccessTime', 'WriteTime', 'Permissions', 'Ownership', 'Extended', 'Other'),
+        'AccessKind': ('Any', 'Read', 'Open', 'Close', 'Other'),
+        'AccessMode': ('Any', 'Execute', 'Read', 'Write', 'Other'),
     }
 
     def resolve_ctor(self, segs):
@@ -257,7 +267,7 @@ class Lib:
             return c
         base = t.split('<')[0]
         inner = t[t.index('<') + 1:-1] if '<' in t else ''
-        if base in ('Vec',):
+        if base in ('Vec', 'VecDeque'):
             return RVec(items)
         if base in ('HashSet', 'BTreeSet'):
             ent = {}
@@ -770,7 +780,8 @@ class Lib:
             return RSet()
         if last2 == 'BTreeSet::new':
             return RSet(ordered=True)
-        if last2 in ('Vec::new', 'Vec::with_capacity'):
+        if last2 in ('Vec::new', 'Vec::with_capacity', 'VecDeque::new', 'VecDeque::with_capacity', 'VecDeque::default', 'Vec::default'):
+            # (a VecDeque is the same ordered sequence; push_front/pop_front/... are modelled on it)
             return RVec()
         if last2 in ('Mutex::new', 'RwLock::new', 'Semaphore::new', 'Barrier::new', 'Condvar::new'):
             # synchronisation objects: identity matters only for objects shared between targets (statics), see path_value
@@ -915,6 +926,9 @@ class Lib:
             return self.m_option(ref, v, method, args, node)
         if isinstance(v, REnum) and v.ty == 'Result':
             return self.m_result(ref, v, method, args, node)
+        if isinstance(v, REnum) and v.ty == 'EventKind' and method in ('is_access', 'is_create', 'is_modify', 'is_remove', 'is_other'):
+            # notify::EventKind predicates
+            return v.variant == {'is_access': 'Access', 'is_create': 'Create', 'is_modify': 'Modify', 'is_remove': 'Remove', 'is_other': 'Other'}[method]
         if isinstance(v, RSet):
             return self.m_set(ref, v, method, args, node)
         if isinstance(v, RMap):
@@ -1243,6 +1257,15 @@ class Lib:
             if e[0] is True:
                 return some(val)
             return Union([(e[0], some(val)), (b_not(e[0]), NONE)])
+        if method == 'get_key_value':
+            k, kv = self._key(args[0], node)
+            e = m.entries.get(k)
+            if e is None or e[0] is False:
+                return NONE
+            pair = RTuple((e[1], e[2]))
+            if e[0] is True:
+                return some(pair)
+            return Union([(e[0], some(pair)), (b_not(e[0]), NONE)])
         if method == 'contains_key':
             k, kv = self._key(args[0], node)
             e = m.entries.get(k)
@@ -1286,18 +1309,38 @@ class Lib:
         raise Unsupported('HashMap::%s' % method, node)
 
     # --- vectors
+    def _end_present(self, items, from_back):
+        """Index of the first (last) present item of a guarded sequence, or None; forks on symbolic presence."""
+        I = self.I
+        order = list(range(len(items)))
+        if from_back:
+            order.reverse()
+        for j in order:
+            g = items[j][0]
+            if g is True or I.branch(g):
+                return j
+        return None
+
     def m_vec(self, ref, v, method, args, node):
         I = self.I
-        if method == 'push':
+        if method in ('push', 'push_back'):
             I.store_at(ref, RVec(v.items + ((True, args[0]),)))
             return UNIT
-        if method == 'pop':
-            if not v.concrete():
-                raise Unsupported('pop on guarded vec', node)
-            if not v.items:
+        if method == 'push_front':
+            I.store_at(ref, RVec(((True, args[0]),) + v.items))
+            return UNIT
+        if method in ('pop', 'pop_back', 'pop_front'):
+            back = method != 'pop_front'
+            j = self._end_present(v.items, back)
+            if j is None:
+                I.store_at(ref, RVec())
                 return NONE
-            I.store_at(ref, RVec(v.items[:-1]))
-            return some(v.items[-1][1])
+            # (the items skipped over are absent on this path)
+            I.store_at(ref, RVec(v.items[:j] if back else v.items[j + 1:]))
+            return some(v.items[j][1])
+        if method in ('front', 'back', 'front_mut', 'back_mut') or (method in ('first', 'last') and not v.concrete()):
+            j = self._end_present(v.items, method in ('back', 'back_mut', 'last'))
+            return some(v.items[j][1]) if j is not None else NONE
         if method == 'len':
             return self._set_len(RSet({i: (g, None) for i, (g, _) in enumerate(v.items)}))
         if method == 'is_empty':
